@@ -34,6 +34,16 @@ def run(prop, tier, seed, ctx):
                       "objects a submission assigned to (history realmut, then mathy)", {"cfg": "MC_Grading_realmods_q.cfg"})
     for r in res.records:
         hists[json.dumps(r["hist"])] = r
+    # deep random histories (tlc -simulate): six gradings drawn from ALL scripts and submissions of the library
+    num = 10 if tier == "quick" else 400
+    sres = tlc.run("MC_Grading", "SIM_Grading_deep.cfg", workers=4, timeout=600, simulate="num=%d" % num, extra=["-depth", "8", "-seed", str(1000 + seed)])
+    tlc.require_ok(sres, "simulation SIM_Grading_deep.cfg")
+    ctx.add_tlc(sres, "simulation (%d histories of 6 gradings) SIM_Grading_deep.cfg" % (4 * num))
+    deep = [r for r in sres.records if len(r["hist"]) == 6]
+    if len(deep) < num:
+        raise MachineryError("simulation exported only %d complete histories" % len(deep))
+    for r in deep:
+        hists[json.dumps(r["hist"])] = r
     recs = list(hists.values())
     pairs = sorted({tuple(p) for r in recs for p in r["hist"]})
     base = dict(shard_map("bind.grading", "baseline_chunk", [list(p) for p in pairs], procs=12, chunk=1))
